@@ -6,19 +6,18 @@ Model M6 (`KmipModel/Monitor.lean`): `scan` transcribes `PolicyDirectoryMonitor.
 (`KmipModel/MonitorSpec.lean`): `specStore` — each name maps to the definition in the most
 recently loaded file that still defines it — and `DocOK` — the documented file format.
 
-What is proved
-  * `monitor_refines_spec_partial`  the store after any history equals `specStore`, for the histories on
-    which this is TRUE of the code as it is: no file is ever reloaded without a name it defined while
-    another file's definition of that name was in force (`NoShadowedDrop`).
-  * `shadowed_drop_witness`, `monitor_refines_spec_fails_without_guard`  the guard cannot be dropped
-    (defect F-C18-a: the dropped definition is resurrected).
-  * `reserved_untouched`  for ALL histories (malformed snapshots and parser crashes included).
+What is proved (for the code as of /repo 72eead1, i.e. with both C18 repairs mirrored in the model)
+  * `monitor_refines_spec`  the store after ANY well-formed history in which no read raised a non-ValueError
+    exception equals `specStore`; `scan_ends_normally` no exception escapes on such histories.
+  * `reserved_untouched`  for ALL histories (malformed snapshots and foreign exceptions included).
   * `bad_file_rejected_whole`, `scan_with_only_bad_files_changes_nothing`.
-  * `scan_no_internal_failure`  on every path the only exception that can escape a scan is the parser's.
-  * `read_policy_spec`  accepted ⇔ `DocOK`;  `invalid_document_rejected`.
-  * `read_policy_total_partial`  ValueError is the only failure for well-typed, unmixed documents; the
-    witnesses `crash_*` and `read_policy_total_fails_without_guard` show that both guards are needed
-    (defect F-C18-b).
+  * `scan_no_internal_failure`  on every path the only exception that can escape a scan is one raised by
+    `read_policy_from_file`.
+  * `read_policy_spec`  accepted ⇔ `DocOK`;  `invalid_document_rejected`;  `read_policy_total`  the parser
+    returns or raises ValueError on every input.
+History: before fixes 62efd90 / 72eead1 the refinement needed the guard "no file is reloaded without a name
+while another file shadows it" (F-C18-a) and totality needed "well-typed, unmixed" (F-C18-b); the former
+counterexamples are kept below as regression examples (`former_f_c18_a_history`, `formerly_crashing_*`).
 -/
 import KmipModel.Lemmas.Monitor
 import KmipModel.Lemmas.PolicyFile
@@ -31,14 +30,8 @@ open Kmip Kmip.Mon
 def HistWF (h : List DirSnapshot) : Prop := ∀ d ∈ h, d.WF
 /-- no read raised anything but ValueError -/
 def HistNoCrash (h : List DirSnapshot) : Prop := ∀ d ∈ h, d.NoCrash
-/-- **the guard that excludes F-C18-a**: along the history no file was reloaded successfully WITHOUT a
-(non-reserved) name it defined at a moment when the definition in force for that name came from another,
-more recently loaded file. -/
-def NoShadowedDrop (R : List Name) (h : List DirSnapshot) : Prop := (specRun R h).shadowedDrop = false
-
 instance (h : List DirSnapshot) : Decidable (HistWF h) := by unfold HistWF; infer_instance
 instance (h : List DirSnapshot) : Decidable (HistNoCrash h) := by unfold HistNoCrash; infer_instance
-instance (R : List Name) (h : List DirSnapshot) : Decidable (NoShadowedDrop R h) := by unfold NoShadowedDrop; infer_instance
 
 /-! ### what the specification says (the property's sentence, clause by clause) -/
 
@@ -89,31 +82,28 @@ theorem spec_earlier_definition_reappears_on_drop (R : List Name) (snap : DirSna
 
 /-! ### the refinement -/
 
-/-- **Refinement, for the histories on which it holds of the code as it is.**  After any well-formed,
-crash-free history without a shadowed drop, every reserved name still has its initial entry and every
-other name is in force exactly with the definition the policy files give it. -/
-theorem monitor_refines_spec_partial (R : List Name) (store0 : List (Name × PolId)) (h : List DirSnapshot)
-    (hw : HistWF h) (hc : HistNoCrash h) (hg : NoShadowedDrop R h) (p : Name) :
+/-- **Refinement.**  After any well-formed history in which no read raised a foreign exception, every
+reserved name still has its initial entry and every other name is in force exactly with the definition the
+policy files give it: the definition in the most recently loaded file that still defines it; none if no file
+defines it. -/
+theorem monitor_refines_spec (R : List Name) (store0 : List (Name × PolId)) (h : List DirSnapshot)
+    (hw : HistWF h) (hc : HistNoCrash h) (p : Name) :
     dget (run R store0 h).store p = if R.contains p then dget store0 p else specStore R (specRun R h) p := by
   have := (inv_run R store0 h _ _ (inv_init R store0) (by intro f hf; simp [MonState.init, dkeys] at hf)
-    (fun d hd => ⟨hw d hd, hc d hd⟩) hg).1
+    (fun d hd => ⟨hw d hd, hc d hd⟩)).1
   exact store_of_inv R store0 _ _ this p
 
-/-- under the same guards every scan of the history ends normally (no exception escapes) -/
-theorem scan_ends_normally_partial (R : List Name) (store0 : List (Name × PolId)) (h : List DirSnapshot) (snap : DirSnapshot)
-    (hw : HistWF (h ++ [snap])) (hc : HistNoCrash (h ++ [snap])) (hg : NoShadowedDrop R (h ++ [snap])) :
+/-- on such histories every scan ends normally (no exception escapes) -/
+theorem scan_ends_normally (R : List Name) (store0 : List (Name × PolId)) (h : List DirSnapshot) (snap : DirSnapshot)
+    (hw : HistWF (h ++ [snap])) (hc : HistNoCrash (h ++ [snap])) :
     ∃ s', scanE R (run R store0 h) snap = .ok s' := by
-  have hg' : (specScan R (specRun R h) snap).shadowedDrop = false := by
-    have : specRun R (h ++ [snap]) = specScan R (specRun R h) snap := by simp [specRun, List.foldl_append]
-    rw [← this]; exact hg
-  have hgh : (specRun R h).shadowedDrop = false := flag_scan_mono R _ snap hg'
   obtain ⟨hi, hk⟩ := inv_run R store0 h _ _ (inv_init R store0) (by intro f hf; simp [MonState.init, dkeys] at hf)
-    (fun d hd => ⟨hw d (List.mem_append_left _ hd), hc d (List.mem_append_left _ hd)⟩) hgh
-  obtain ⟨s', hs, _⟩ := inv_scan R store0 _ _ snap hi hk (hw snap (by simp)) (hc snap (by simp)) hg'
+    (fun d hd => ⟨hw d (List.mem_append_left _ hd), hc d (List.mem_append_left _ hd)⟩)
+  obtain ⟨s', hs, _⟩ := inv_scan R store0 _ _ snap hi hk (hw snap (by simp)) (hc snap (by simp))
   exact ⟨s', hs⟩
 
-/-- **No exception of the monitor's own making, on any path**: whatever the history (shadowed drops and
-parser crashes included), the only exception that can escape the next scan is the one
+/-- **No exception of the monitor's own making, on any path**: whatever the history (foreign exceptions
+from reading a file included), the only exception that can escape the next scan is one that
 `read_policy_from_file` raised — never the `None.append` of l.120, never a missing file. -/
 theorem scan_no_internal_failure (R : List Name) (store0 : List (Name × PolId)) (h : List DirSnapshot) (snap : DirSnapshot)
     (hw : HistWF (h ++ [snap])) (s' : MonState) (e : Exn)
@@ -124,35 +114,29 @@ theorem scan_no_internal_failure (R : List Name) (store0 : List (Name × PolId))
   rw [herr] at this
   exact this.2
 
-/-! ### F-C18-a: the guard cannot be dropped -/
+/-! ### the former F-C18-a history (regression example) -/
 
 def R0 : List Name := ["default", "public"]
 def store00 : List (Name × PolId) := [("default", 0), ("public", 1)]
 
 /-- a.json and b.json both define `p` (b loaded last: b's definition 11 is in force); a.json is edited
-and now defines only `q`; b.json is removed. -/
-def shadowedDropHistory : List DirSnapshot :=
+and now defines only `q`; b.json is removed.  Before fix 62efd90 the monitor ended with `p ↦ 10`. -/
+def former_f_c18_a_history : List DirSnapshot :=
   [ [("a.json", 10, .ok [("p", 10)]), ("b.json", 20, .ok [("p", 11)])],
     [("a.json", 30, .ok [("q", 12)]), ("b.json", 20, .ok [("p", 11)])],
     [("a.json", 30, .ok [("q", 12)])] ]
 
-/-- **Witness of F-C18-a** (`decide`): the history is well-formed and crash-free, no file defines `p` any
-more, the specification says `p` is gone — and the monitor has `p` in force with a.json's OLD definition. -/
-theorem shadowed_drop_witness :
-    HistWF shadowedDropHistory ∧ HistNoCrash shadowedDropHistory ∧
-    specStore R0 (specRun R0 shadowedDropHistory) "p" = none ∧
-    dget (run R0 store00 shadowedDropHistory).store "p" = some 10 ∧
-    ¬ NoShadowedDrop R0 shadowedDropHistory := by
+example : HistWF former_f_c18_a_history ∧ HistNoCrash former_f_c18_a_history ∧
+    specStore R0 (specRun R0 former_f_c18_a_history) "p" = none ∧
+    (run R0 store00 former_f_c18_a_history).store = [("default", 0), ("public", 1), ("q", 12)] := by
   decide
 
-/-- the refinement statement without the `NoShadowedDrop` guard is FALSE for the code as it is -/
-theorem monitor_refines_spec_fails_without_guard :
-    ¬ (∀ (R : List Name) (store0 : List (Name × PolId)) (h : List DirSnapshot), HistWF h → HistNoCrash h →
-        ∀ p, dget (run R store0 h).store p = if R.contains p then dget store0 p else specStore R (specRun R h) p) := by
-  intro hall
-  have := hall R0 store00 shadowedDropHistory shadowed_drop_witness.1 shadowed_drop_witness.2.1 "p"
-  rw [shadowed_drop_witness.2.2.2.1] at this
-  revert this
+/-- the stale entry in the middle of a stack: a, b, c define `p`; b drops it while c shadows it; c is removed -/
+example : (run R0 store00
+    [ [("a.json", 10, .ok [("p", 10)])], [("a.json", 10, .ok [("p", 10)]), ("b.json", 20, .ok [("p", 11)])],
+      [("a.json", 10, .ok [("p", 10)]), ("b.json", 20, .ok [("p", 11)]), ("c.json", 30, .ok [("p", 12)])],
+      [("a.json", 10, .ok [("p", 10)]), ("b.json", 40, .ok []), ("c.json", 30, .ok [("p", 12)])],
+      [("a.json", 10, .ok [("p", 10)]), ("b.json", 40, .ok [])] ]).store = [("default", 0), ("public", 1), ("p", 10)] := by
   decide
 
 /-! ### reserved names -/
@@ -190,8 +174,8 @@ theorem scan_with_only_bad_files_changes_nothing (R : List Name) (s : MonState) 
   let ⟨s', h, a, b, c, _⟩ := scan_quiet R s snap hfiles hq
   ⟨s', h, a, b, c⟩
 
-/-! ### non-vacuity of the refinement guards: shadowing, restoration on removal, restoration on drop by the
-owner, a broken file in between — all inside `NoShadowedDrop` -/
+/-! ### non-vacuity of the refinement hypotheses: shadowing, a broken file in between, restoration on drop,
+removal -/
 
 def goodHistory : List DirSnapshot :=
   [ [("a.json", 10, .ok [("p", 10), ("q", 13)]), ("b.json", 20, .ok [("p", 11)])],      -- b shadows a on p
@@ -199,7 +183,7 @@ def goodHistory : List DirSnapshot :=
     [("a.json", 10, .ok [("p", 10), ("q", 13)]), ("b.json", 40, .ok [("r", 14)])],       -- b (owner) drops p: a's p is back
     [("b.json", 40, .ok [("r", 14)])] ]                                                  -- a removed: p, q gone
 
-example : HistWF goodHistory ∧ HistNoCrash goodHistory ∧ NoShadowedDrop R0 goodHistory := by decide
+example : HistWF goodHistory ∧ HistNoCrash goodHistory := by decide
 example : (run R0 store00 (goodHistory.take 1)).store = [("default", 0), ("public", 1), ("p", 11), ("q", 13)] := by decide
 example : (run R0 store00 (goodHistory.take 2)).store = [("default", 0), ("public", 1), ("p", 11), ("q", 13)] := by decide
 example : (run R0 store00 (goodHistory.take 3)).store = [("default", 0), ("public", 1), ("p", 10), ("q", 13), ("r", 14)] := by decide
@@ -218,20 +202,19 @@ theorem read_policy_spec (T : NameTables) (j : J) : (∃ r, readPolicy T (some j
 /-- text that `json.loads` refuses is rejected (ValueError) -/
 theorem bad_json_rejected (T : NameTables) : readPolicy T none = .error .reject := rfl
 
-/-- **Totality, in the form that is true today**: on a document all of whose nodes have the JSON type the
-format prescribes (`DocTyped`) and none of whose bodies mixes section names with object type names
-(`DocUnmixed`), the parser returns or raises ValueError — nothing else. -/
-theorem read_policy_total_partial (T : NameTables) (j : J) (ht : DocTyped T j) (hm : DocUnmixed T j) :
-    (∃ r, readPolicy T (some j) = .ok r) ∨ readPolicy T (some j) = .error .reject := by
-  cases h : readPolicy T (some j) with
+/-- **Totality**: on every input — any JSON value, and text that is not JSON — the parser returns or raises
+ValueError, nothing else (so `scan_policies`, which catches ValueError, survives every file content). -/
+theorem read_policy_total (T : NameTables) (doc : Option J) :
+    (∃ r, readPolicy T doc = .ok r) ∨ readPolicy T doc = .error .reject := by
+  cases h : readPolicy T doc with
   | ok r => exact Or.inl ⟨r, rfl⟩
-  | error e => rw [readPolicy_onlyRejects T j ht hm e h]; exact Or.inr rfl
+  | error e => rw [readPolicy_onlyRejects T doc e h]; exact Or.inr rfl
 
-/-- **Unknown object type / operation / permission / section ⇒ rejected**: a well-typed, unmixed document that
-is not in a documented shape raises ValueError. -/
-theorem invalid_document_rejected (T : NameTables) (j : J) (ht : DocTyped T j) (hm : DocUnmixed T j)
-    (hbad : ¬ DocOK T j) : readPolicy T (some j) = .error .reject := by
-  rcases read_policy_total_partial T j ht hm with h | h
+/-- **Unknown object type / operation / permission / section, wrong-typed node ⇒ rejected**: a document that is
+not in a documented shape raises ValueError. -/
+theorem invalid_document_rejected (T : NameTables) (j : J) (hbad : ¬ DocOK T j) :
+    readPolicy T (some j) = .error .reject := by
+  rcases read_policy_total T (some j) with h | h
   · exact absurd ((read_policy_spec T j).mp h) hbad
   · exact h
 
@@ -244,44 +227,22 @@ def outcome {α} : Except PErr α → Option PErr
 abbrev o (kvs : List (String × J)) : J := .obj kvs
 def goodTable : J := o [("SYMMETRIC_KEY", o [("GET", .str "ALLOW_ALL")])]
 
-/-! ### F-C18-b: the inputs on which the parser raises something else (`decide`, live name tables) -/
+/-! ### the former F-C18-b inputs (regression examples): all rejected now -/
 
-/-- `[1, 2]` : `policy_blob.items()` -/
-theorem crash_document_not_object : outcome (readPolicy liveTables (some (.arr [.num 1, .num 2]))) = some .attributeError := by decide
-/-- `{"x": 5}` : `object_policy.keys()` -/
-theorem crash_body_not_object : outcome (readPolicy liveTables (some (o [("x", .num 5)]))) = some .attributeError := by decide
-/-- `{"x": {"preset": 5}}` : `six.iteritems(policy)` -/
-theorem crash_preset_not_object :
-    outcome (readPolicy liveTables (some (o [("x", o [("preset", .num 5)])]))) = some .attributeError := by decide
-/-- `{"x": {"groups": [1]}}` : `six.iteritems(group_policies)` -/
-theorem crash_groups_not_object :
-    outcome (readPolicy liveTables (some (o [("x", o [("groups", .arr [.num 1])])]))) = some .attributeError := by decide
-/-- `{"x": {"preset": {"SYMMETRIC_KEY": 5}}}` : `six.iteritems(operation_policies)` -/
-theorem crash_operations_not_object :
-    outcome (readPolicy liveTables (some (o [("x", o [("preset", o [("SYMMETRIC_KEY", .num 5)])])]))) = some .attributeError := by
+/-- `[1, 2]` -/
+example : outcome (readPolicy liveTables (some (.arr [.num 1, .num 2]))) = some .reject := by decide
+/-- `{"x": 5}` -/
+example : outcome (readPolicy liveTables (some (o [("x", .num 5)]))) = some .reject := by decide
+/-- `{"x": {"preset": 5}}` -/
+example : outcome (readPolicy liveTables (some (o [("x", o [("preset", .num 5)])]))) = some .reject := by decide
+/-- `{"x": {"groups": [1]}}` -/
+example : outcome (readPolicy liveTables (some (o [("x", o [("groups", .arr [.num 1])])]))) = some .reject := by decide
+/-- `{"x": {"preset": {"SYMMETRIC_KEY": 5}}}` -/
+example : outcome (readPolicy liveTables (some (o [("x", o [("preset", o [("SYMMETRIC_KEY", .num 5)])])]))) = some .reject := by
   decide
-/-- `{"x": {"preset": {}, "SYMMETRIC_KEY": {}}}` : `invalid_sections.pop()` on an empty set -/
-theorem crash_mixed_sections :
-    outcome (readPolicy liveTables (some (o [("x", o [("preset", o []), ("SYMMETRIC_KEY", o [])])]))) = some .keyError := by
+/-- `{"x": {"preset": {}, "SYMMETRIC_KEY": {}}}` (sections mixed with object types) -/
+example : outcome (readPolicy liveTables (some (o [("x", o [("preset", o []), ("SYMMETRIC_KEY", o [])])]))) = some .reject := by
   decide
-
-/-- the mixed document is well-typed: `DocUnmixed` is needed -/
-theorem mixed_document_is_typed : DocTyped liveTables (o [("x", o [("preset", o []), ("SYMMETRIC_KEY", o [])])]) := by
-  refine ⟨_, rfl, ?_⟩
-  intro e he
-  simp only [List.mem_singleton] at he
-  subst he
-  refine ⟨_, rfl, ?_, ?_⟩
-  · intro h; exact absurd (h "SYMMETRIC_KEY" (by simp [dkeys])) (by decide)
-  · intro _ h; exact absurd (h "preset" (by simp [dkeys])) (by decide)
-
-/-- the full totality statement is FALSE for the code as it is -/
-theorem read_policy_total_fails_without_guard :
-    ¬ (∀ j, (∃ r, readPolicy liveTables (some j) = .ok r) ∨ readPolicy liveTables (some j) = .error .reject) := by
-  intro hall
-  rcases hall (o [("x", .num 5)]) with ⟨r, h⟩ | h
-  · have := crash_body_not_object; rw [h] at this; cases this
-  · have := crash_body_not_object; rw [h] at this; cases this
 
 /-! ### non-vacuity: every documented shape is accepted, every kind of unknown name is rejected -/
 
@@ -307,16 +268,9 @@ example : outcome (readPolicy liveTables (some (o [("a", o [("preset", o [("SYMM
 /-- the first error wins: an invalid entry after a valid one rejects the whole file -/
 example : outcome (readPolicy liveTables (some (o [("good", o [("preset", goodTable)]), ("bad", o [("extras", o [])])])))
     = some .reject := by decide
-/-- `DocOK`, `DocTyped`, `DocUnmixed` are satisfiable together -/
-example : DocOK liveTables (o [("a", o [])]) ∧ DocTyped liveTables (o [("a", o [])]) ∧ DocUnmixed liveTables (o [("a", o [])]) := by
-  refine ⟨⟨_, rfl, ?_⟩, ⟨_, rfl, ?_⟩, ?_⟩
-  · intro e he; simp only [List.mem_singleton] at he; subst he; exact ⟨[], rfl, Or.inl rfl⟩
-  · intro e he; simp only [List.mem_singleton] at he; subst he
-    exact ⟨[], rfl, fun _ => ⟨fun v h => (nomatch h), fun v h => (nomatch h)⟩, fun h => absurd (fun k hk => (nomatch hk)) h⟩
-  · intro kvs hk e he
-    cases hk
-    simp only [List.mem_singleton] at he; subst he
-    rintro ⟨kvs', h, hne, _⟩
-    cases h; exact hne rfl
+/-- `DocOK` is satisfiable, and not by everything -/
+example : DocOK liveTables (o [("a", o [])]) := ⟨_, rfl, fun e he => by
+  simp only [List.mem_singleton] at he; subst he; exact ⟨[], rfl, Or.inl rfl⟩⟩
+example : ¬ DocOK liveTables (.num 5) := fun ⟨_, h, _⟩ => nomatch h
 
 end Kmip.C18
